@@ -69,6 +69,7 @@ type vfCfg struct {
 	DenyKeys      []string    `json:"deny_keys,omitempty"` // fixture key names whose fingerprints are deny-listed
 	PubKeys       []string    `json:"pub_keys,omitempty"`  // fixture key names pre-published in keymaster_public_keys_filename
 	Email         bool        `json:"email,omitempty"`
+	CAKey         string      `json:"ca_key,omitempty"` // "" = RSA primary CA key, "ecdsa" = ECDSA P-256 primary CA key (supported experimentally)
 	TZ            string      `json:"tz,omitempty"` // the server's local time zone ("" = UTC)
 	AwsRoles      bool        `json:"aws_roles,omitempty"` // cloud-role certificates for workloads of one allowed AWS account (simulated STS)
 	Federated     bool        `json:"federated,omitempty"` // oauth2 login through a (simulated) identity provider
@@ -242,6 +243,9 @@ func (w *vfWorld) writeConfig() (string, error) {
 	fmt.Fprintf(&b, "  host_identity: %q\n", vfHost)
 	fmt.Fprintf(&b, "  tls_cert_filename: %q\n  tls_key_filename: %q\n", vfFixture("server.pem"), vfFixture("server.key"))
 	ca := "ca_rsa.pem"
+	if c.CAKey == "ecdsa" && !c.Sealed {
+		ca = "ca_ecdsa.pem"
+	}
 	if c.Sealed {
 		ca = "ca_rsa.asc"
 		if c.BadPrimary {
